@@ -40,6 +40,9 @@ CFG = {
         "Swat4.C10.holder_death_unblocks_writer",
         "Swat4.C10.blocked_while_held",
         "Swat4.C10.lockExpire_respects_ttl",
+        "Swat4.C10.facts_batches_atomic_sites",
+        "Swat4.C10.facts_batch_keys",
+        "Swat4.C10.facts_lock_ttl_defs",
     ],
     "shards": (4, 16),
     "nontrivial": _c10_nontrivial,
